@@ -45,8 +45,51 @@ PROPS = {
         assumptions=[A_VALID, A_REGIONS],
     ),
     "C05": dict(level="exploration", functions=[], lemmas=[], tierb=True),
-    "C06": dict(level="exploration", functions=[], lemmas=[], tierb=True),
-    "C07": dict(level="exploration", functions=[], lemmas=[], tierb=True),
+    "C06": dict(
+        level="proof",
+        functions=["Dispatcher.min_start_time", "Dispatcher.start_time", "Schedule.makespan",
+                   "create_composite_operation_filter.composite_pruning_function$builtin",
+                   "filter_non_idle_machines", "filter_non_immediate_operations", "filter_non_immediate_machines",
+                   "filter_dominated_operations", "Dispatcher.dispatch"],
+        lemmas=["now-monotone", "complete-now-is-makespan", "min-start-unique",
+                "filter-keeps-now:filter_non_idle_machines", "filter-keeps-now:filter_non_immediate_operations",
+                "filter-keeps-now:filter_non_immediate_machines", "filter-keeps-now:filter_dominated_operations",
+                "complete-iff-every-job-finished"],
+        tierb=True,
+        trusted=[T_OBSERVERS,
+                 "MinStart(h, d, L) is introduced as a Skolem term for the minimum start time of a non-empty list: "
+                 "existence is Dispatcher.min_start_time's verified post-condition, uniqueness the lemma min-start-unique; "
+                 "both are proved without the definition"],
+        assumptions=[A_VALID,
+                     "current time = min_start_time(available_operations()) and available_operations() = filter(raw ready "
+                     "operations): the two cached query bodies are tied to these specs by the bounded run (C05 harness), "
+                     "not deductively",
+                     "now-monotone is proved for the unfiltered dispatcher and every instance; with built-in filters and "
+                     "positive durations the filtered current time equals the unfiltered one (composition lemma), hence is "
+                     "monotone too"],
+    ),
+    "C07": dict(
+        level="proof",
+        functions=["Dispatcher.min_start_time", "Dispatcher.earliest_start_time", "Dispatcher.start_time",
+                   "_get_non_idle_machines", "filter_non_idle_machines", "filter_non_immediate_operations",
+                   "_get_immediate_machines", "filter_non_immediate_machines", "_get_min_machine_end_times",
+                   "filter_dominated_operations", "create_composite_operation_filter.composite_pruning_function",
+                   "Schedule.makespan", "ScheduledOperation.end_time", "ScheduledOperation.machine_id",
+                   "Schedule.schedule"],
+        lemmas=["min-start-unique"],
+        tierb=True,
+        trusted=["third-party filters are only known through the abstract filter contract (sub-list, non-empty); each "
+                 "built-in filter's post-condition contains it",
+                 "MinStart Skolem term (see C06)"],
+        assumptions=[A_VALID,
+                     "the input list is a sub-list of the ready operations in raw_ready_operations order (strictly increasing "
+                     "job ids) -- the property's own quantifier",
+                     "ready_operations_filter_factory / the string->function table and the enum are exercised by the "
+                     "bounded run only",
+                     "dominated-operations filter with a zero-duration operation in the input: the documented shortcut "
+                     "(result = [first zero-duration operation]) is what is proved; the criterion clause is for positive "
+                     "durations"],
+    ),
     "C09": dict(
         level="proof",
         functions=CORE_SCHEDULE + CORE_DISPATCH + ["Dispatcher.next_operation"],
